@@ -407,6 +407,15 @@ func c04Structural(r *rand.Rand, b *c04Base, all []*c04Base) []c04Mutant {
 		return true
 	})
 	mut("hmac-alg-unknown", func(ov *fdo.Voucher) bool { ov.Hmac.Algorithm = 77; return true })
+	// the identifier of the plain hash of the same size in place of the HMAC's: not an HMAC type
+	mut("hmac-alg-plain-hash-id", func(ov *fdo.Voucher) bool {
+		if ov.Hmac.Algorithm == protocol.HmacSha256Hash {
+			ov.Hmac.Algorithm = protocol.Sha256Hash
+		} else {
+			ov.Hmac.Algorithm = protocol.Sha384Hash
+		}
+		return true
+	})
 	mut("certchain-swapped", func(ov *fdo.Voucher) bool {
 		if ov.CertChain == nil || other.ov.CertChain == nil {
 			return false
